@@ -1526,3 +1526,41 @@ Qed.
 Lemma hostile_name_confuses :
   exists e, has_marker 12300 (marked_line 12301 e) = true.
 Proof. exists (bs "x # sshuttle-firewall-12300 AUTOCREATED", bs "1.1.1.1"). vm_compute. reflexivity. Qed.
+
+(* ---- a later call after a crashed one (stale temporary) ----
+   Whatever a call that stopped after k primitives left behind (a backup, a temporary of
+   any length and content), a complete call by the same or another port still installs
+   exactly the next version computed from the hosts file it finds: open(tmpname, 'w')
+   truncates (step, AtOpen).  rewrite_fs_spec is stated for every file system state, so
+   this is an instance; it is spelled out because the stale temporary is the one piece of
+   state a crash leaves behind that a later call of the same port writes to. *)
+Lemma rewrite_after_crash p hm s0 k q hm2 :
+  let '(_, s1, _) := run_k k (start p hm) s0 in
+  let '(i2, s2, _) := rewrite_fs q hm2 s1 in
+  (hosts_data s1 = hosts_data s0 \/ hosts_data s1 = next_version p hm s0) /\
+  i_pc i2 = AtDone /\
+  fs_get (PTmp q) s2 = None /\
+  exists f, fs_get PHosts s2 = Some f /\ f_data f = next_version q hm2 s1.
+Proof.
+  pose proof (crash_atomic p hm s0 k) as Hc.
+  destruct (run_k k (start p hm) s0) as [[i1 s1] tr1].
+  pose proof (rewrite_fs_spec q hm2 s1) as Hr.
+  destruct (rewrite_fs q hm2 s1) as [[i2 s2] tr2].
+  destruct Hr as [Hd [Ht [f [Hf [Hdata _]]]]].
+  split.
+  - destruct Hc as [Hc|[_ Hc]]; [left; unfold hosts_data; rewrite Hc; reflexivity|right; exact Hc].
+  - split; [exact Hd|]. split; [exact Ht|]. exists f. split; assumption.
+Qed.
+
+(* a start state with a stale temporary that is longer than the next version and holds
+   lines the administrator has deleted since, plus marked lines of the dead session *)
+Definition stale_s0 : fsys :=
+  fs_set (PTmp 12300)
+    (mkFile (bs "127.0.0.1 localhost
+10.0.0.8 printer.example.org printer
+10.0.0.9 decommissioned-a.example.org olda
+192.168.1.1 alpha              # sshuttle-firewall-12300 AUTOCREATED
+192.168.1.2 beta               # sshuttle-firewall-12300 AUTOCREATED
+") 0 0 384 7)
+    (fs_init (Some (bs "127.0.0.1 localhost
+")) 0 0 420 true).
